@@ -66,6 +66,7 @@ POOL = [
     "list = (\"- first bullet of a long description that wraps\", \"xxxxxxxxxxxxxxxxxxxxxxxxxxxxxxxxxxxxxxxxxxxxxxxxxx- yyyyyyyyyyyyyyyyyyyyyyyyyyyyyyyyyyyyyyyy\")\n",
     "RADIANCE = (1.5 <W / m**2 / sr>, 2.25 <W / m**2 / sr>, 3.125 <W / m**2 / sr>, 4.0 <W / m**2 / sr>, 5.5 <W / m**2 / sr>, 6.75 <W / m**2 / sr>, 7.0 <W / m**2 / sr>, 8.5 <W / m**2 / sr>)\n"
     "SCALE = (10 <m / pixel>, 20 <m / pixel>, 30 <m / pixel>, 40 <m / pixel>, 50 <m / pixel>, 60 <m / pixel>)\n",
+    "e = 5 <>\nf = (1, 2) < >\ng = {3 <>}\nh = 2.5 <>\n",
     "TABBED = (100 <m\ts>, 101 <m\ts>, 102 <m\ts>, 103 <m\ts>, 104 <m\ts>, 105 <m\ts>, 106 <m\ts>, 107 <m\ts>, 108 <m\ts>, 109 <m\ts>, 110 <m\ts>, 111 <m\ts>)\n",
     "long = (\"alpha beta gamma delta epsilon zeta eta theta iota kappa\", \"lambda mu nu xi omicron pi rho sigma tau upsilon\", third-word)\n",
 ]
